@@ -182,8 +182,11 @@ package jsonpatch
 //@ func isArray
 //@   modifies nothing
 //@   ensures[C01,C16] array-iff: wf(buf) && nows(bytes(buf)) ==> (result <==> kind(val(bytes(buf))) == KArr)
+//@   ensures[C01,C04] array-if: wf(buf) && result ==> kind(val(bytes(buf))) == KArr
 //@   loop 1
 //@   invariant bounds: -1 <= rangeindex && rangeindex < len(buf)
+//@   invariant before-first-token: wf(buf) ==> rangeindex < fnw(bytes(buf))
+//@   invariant bridge: rangeindex + 1 < len(buf) ==> bytes(buf)[rangeindex + 1] == buf[rangeindex + 1]
 //@   invariant skipped-ws: forall j int :: 0 <= j && j <= rangeindex ==> buf[j] == ' ' || buf[j] == '\n' || buf[j] == '\t'
 
 //@ func (*lazyNode).intoDoc
@@ -323,3 +326,67 @@ package jsonpatch
 //@ func decodePatchKey
 //@   modifies nothing
 //@   ensures[C01,C14] unescape: result == unescape(k)
+
+// ---- pointer walk and the six operations ----
+
+//@ func findObject
+//@   requires args: pd != nil && options != nil && conOK(*pd)
+//@   ensures[C01] root-kept: *pd == old(*pd)
+//@   ensures[C01] whole-document: path == "" ==> result.0 == old(*pd) && result.1 == ""
+//@   ensures[C01,C08] nil-key: result.0 == nil ==> result.1 == ""
+//@   ensures[C04] container: result.0 != nil ==> conOK(result.0)
+//@   ensures[C01,C14] key-decoded: result.0 != nil && path != "" ==> result.1 == unescape(tok(path, ntok(path) - 1))
+//@   ensures[C01] needs-slash: path != "" && ntok(path) < 2 ==> result.0 == nil
+//@   loop 1
+//@   invariant container: conOK(doc)
+
+//@ func (Patch).add
+//@   requires args: doc != nil && options != nil && conOK(*doc)
+//@   requires op: opOK(op) && validOp(op) && opKind(op) == "add"
+//@   ensures[C04] container: err == nil ==> conOK(*doc)
+//@   ensures[C08] attrs: !isTestFailed(err) && !isCopyLimit(err)
+//@   bind con = findObject#1.0
+//@   ensures[C08] missing-parent: reached(findObject#1) && con == nil ==> isMissing(err)
+
+//@ func (Patch).remove
+//@   requires args: doc != nil && options != nil && conOK(*doc)
+//@   requires op: opOK(op) && validOp(op)
+//@   ensures[C04] container: conOK(*doc) && *doc == old(*doc)
+//@   ensures[C08] attrs: !isTestFailed(err) && !isCopyLimit(err)
+//@   bind con = findObject#1.0
+//@   ensures[C08,C13] missing-parent: reached(findObject#1) && con == nil && !options.AllowMissingPathOnRemove ==> isMissing(err)
+//@   ensures[C13] missing-parent-skipped: reached(findObject#1) && con == nil && options.AllowMissingPathOnRemove ==> err == nil
+
+//@ func (Patch).replace
+//@   requires args: doc != nil && options != nil && conOK(*doc)
+//@   requires op: opOK(op) && validOp(op) && opKind(op) == "replace"
+//@   ensures[C04] container: err == nil ==> conOK(*doc)
+//@   ensures[C08] attrs: !isTestFailed(err) && !isCopyLimit(err)
+//@   bind con = findObject#1.0
+//@   ensures[C08] missing-parent: reached(findObject#1) && con == nil ==> isMissing(err)
+
+//@ func (Patch).move
+//@   requires args: doc != nil && options != nil && conOK(*doc)
+//@   requires op: opOK(op) && validOp(op) && opKind(op) == "move"
+//@   ensures[C04] container: conOK(*doc) && *doc == old(*doc)
+//@   ensures[C08] attrs: !isTestFailed(err) && !isCopyLimit(err)
+//@   bind con = findObject#1.0
+//@   ensures[C08] missing-parent: reached(findObject#1) && con == nil ==> isMissing(err)
+
+//@ func (Patch).test
+//@   requires args: doc != nil && options != nil && conOK(*doc)
+//@   requires op: opOK(op) && validOp(op)
+//@   ensures[C04] container: conOK(*doc) && *doc == old(*doc)
+//@   ensures[C08] attrs: !isCopyLimit(err)
+//@   bind con = findObject#1.0
+//@   ensures[C08] missing-parent: reached(findObject#1) && con == nil ==> isMissing(err) && !isTestFailed(err)
+
+//@ func (Patch).copy
+//@   requires args: doc != nil && options != nil && accumulatedCopySize != nil && conOK(*doc)
+//@   requires op: opOK(op) && validOp(op) && opKind(op) == "copy"
+//@   requires total: *accumulatedCopySize >= 0 && *accumulatedCopySize <= 4611686018427387904
+//@   ensures[C04] container: conOK(*doc) && *doc == old(*doc)
+//@   ensures[C08] attrs: !isTestFailed(err)
+//@   ensures[C12] total: *accumulatedCopySize >= old(*accumulatedCopySize)
+//@   bind con = findObject#1.0
+//@   ensures[C08] missing-parent: reached(findObject#1) && con == nil ==> isMissing(err) && !isCopyLimit(err)
